@@ -21,7 +21,10 @@ def handle (line : String) : String :=
           | none =>
             match Rq.DriverC.handle w with
             | some r => r
-            | none => "bad-request"
+            | none =>
+              match Rq.DriverS.handle w with
+              | some r => r
+              | none => "bad-request"
 
 partial def loop (hin hout : IO.FS.Stream) : IO Unit := do
   let line ← hin.getLine
